@@ -2,7 +2,7 @@
 import numpy as np
 from harness import wavecheck as wk, waveoracle as wo, wavesim_corr as wc
 
-THEOREMS = ['C13_wsa_counts', 'C13_overflow_mark']
+THEOREMS = ['C13_wsa_counts', 'C13_overflow_mark', 'C13_no_overflow_is_exact']
 
 
 def oracle(k, w):
